@@ -440,9 +440,264 @@ impl Ctx {
 	}
 }
 
+/// bit pattern (decimal) of the number when the whole text parses to a plain number literal
+fn num_of(e: &Expr) -> String {
+	match e {
+		Expr::Num(n) => n.to_bits().to_string(),
+		_ => "other".into(),
+	}
+}
+fn ir_expr(src: &str) -> Option<Expr> {
+	guarded(|| {
+		jrsonnet_ir_parser::parse(src, &jrsonnet_ir_parser::ParserSettings { source: source(src) }).ok()
+	})
+	.ok()
+	.flatten()
+}
+fn peg_expr(src: &str) -> Option<Expr> {
+	guarded(|| {
+		jrsonnet_peg_parser::parse(src, &jrsonnet_peg_parser::ParserSettings { source: source(src) }).ok()
+	})
+	.ok()
+	.flatten()
+}
+fn str_of(e: Option<Expr>) -> Value {
+	match e {
+		Some(Expr::Str(s)) => json!(s.chars().map(|c| c as u32).collect::<Vec<_>>()),
+		_ => Value::Null,
+	}
+}
+fn lexemes_json(src: &str) -> Value {
+	Value::Array(Lexer::new(src).map(|l| json!([format!("{:?}", l.kind), l.text])).collect())
+}
+
+impl Ctx {
+	/// `c06.number`: first lexeme of the real lexer, and the value both evaluator parsers give
+	/// to the whole text when it is one number literal
+	fn number(&mut self, gen: &str, s: &str, lit: Option<Value>) {
+		let cps: Vec<u32> = s.chars().map(|c| c as u32).collect();
+		let lex = match guarded(|| Lexer::new(s).next().map(|l| (l.kind, l.text.chars().count()))) {
+			Ok(Some((k, n)))
+				if matches!(
+					k,
+					SyntaxKind::FLOAT
+						| SyntaxKind::ERROR_FLOAT_JUNK_AFTER_POINT
+						| SyntaxKind::ERROR_FLOAT_JUNK_AFTER_EXPONENT
+						| SyntaxKind::ERROR_FLOAT_JUNK_AFTER_EXPONENT_SIGN
+				) =>
+			{
+				json!({"kind": format!("{k:?}"), "len": n})
+			}
+			Ok(_) => Value::Null,
+			Err(p) => json!(format!("panic: {p}")),
+		};
+		let ir = ir_expr(s).map_or("other".to_string(), |e| num_of(&e));
+		let peg = peg_expr(s).map_or("other".to_string(), |e| num_of(&e));
+		self.bump(&format!("number.{gen}.{}", if ir == "other" { "not-a-number" } else { "number" }));
+		let mut op = json!({"op":"c06.number","gen":gen,"s":cps,"size":cps.len(),"_text":s});
+		if let Some(l) = lit {
+			op["lit"] = l;
+		}
+		self.w.case(op, json!({"lex": lex, "ir": ir, "peg": peg}));
+	}
+	/// `c06.verbatim`: decoded content when the whole text is one verbatim string
+	fn verbatim(&mut self, gen: &str, q: char, s: &str, content: Option<&str>) {
+		let cps: Vec<u32> = s.chars().map(|c| c as u32).collect();
+		let ir = str_of(ir_expr(s));
+		let peg = str_of(peg_expr(s));
+		self.bump(&format!("verbatim.{gen}.{}", if ir.is_null() { "reject" } else { "accept" }));
+		let mut op = json!({"op":"c06.verbatim","gen":gen,"q":q as u32,"s":cps,"size":cps.len(),"_text":s});
+		if let Some(c) = content {
+			op["content"] = json!(c.chars().map(|c| c as u32).collect::<Vec<_>>());
+		}
+		self.w.case(op, json!({"ir": ir, "peg": peg}));
+	}
+	/// `c06.strip`: the lexeme streams of a program and of the same program with trivia inserted
+	fn strip(&mut self, src: &str, base_src: &str, base: &str) {
+		let (ir, _) = run_ir(src);
+		self.bump("strip");
+		self.w.case(
+			json!({"op":"c06.strip","lexemes":lexemes_json(src),"base":lexemes_json(base_src),"size":src.len(),"_src":src}),
+			json!({"same_tree": ir == base}),
+		);
+	}
+}
+
 // ------------------------------------------------------------------------------------------
 // generators
 // ------------------------------------------------------------------------------------------
+fn digits(rng: &mut Rng, n: usize, first_nonzero: bool) -> String {
+	(0..n)
+		.map(|i| {
+			if i == 0 && first_nonzero {
+				char::from(b'1' + rng.below(9) as u8)
+			} else {
+				char::from(b'0' + rng.below(10) as u8)
+			}
+		})
+		.collect()
+}
+fn groups(rng: &mut Rng, first_nonzero: bool, long: bool) -> Vec<String> {
+	let n = 1 + if rng.chance(1, 2) { 0 } else { rng.below(3) };
+	(0..n)
+		.map(|i| {
+			let len = 1 + rng.below(if long { 12 } else { 3 });
+			digits(rng, len, first_nonzero && i == 0)
+		})
+		.collect()
+}
+fn numbers(c: &mut Ctx, rng: &mut Rng, max_len: usize, n_random: usize) {
+	// (a) every text over a number alphabet that starts with a digit
+	let alpha = ['0', '1', '9', '_', '.', 'e', 'E', '+', '-', 'a'];
+	let mut frontier: Vec<String> = vec!["0".into(), "1".into(), "9".into()];
+	for _ in 1..=max_len {
+		let mut next = Vec::new();
+		for s in &frontier {
+			c.number("exhaustive", s, None);
+			if s.chars().count() < max_len {
+				for a in alpha {
+					let mut q = s.clone();
+					q.push(a);
+					next.push(q);
+				}
+			}
+		}
+		frontier = next;
+	}
+	// (b) structured literals of the grammar, rendered here and re-rendered by the Lean Spec
+	for _ in 0..n_random {
+		let long_i = rng.chance(1, 4);
+		let long_f = rng.chance(1, 4);
+		let int = if rng.chance(1, 6) { vec!["0".to_string()] } else { groups(rng, true, long_i) };
+		let frac = if rng.chance(1, 2) { Some(groups(rng, false, long_f)) } else { None };
+		let exp = if rng.chance(1, 2) {
+			let l = if rng.chance(1, 2) { "e" } else { "E" };
+			let s = *rng.pick(&[None, Some("+"), Some("-")]);
+			let g = if rng.chance(1, 3) {
+				vec![(*rng.pick(&["308", "309", "307", "323", "324", "325", "400", "22", "23", "0", "00", "15", "16", "17"])).to_string()]
+			} else {
+				groups(rng, false, false)
+			};
+			Some((l, s, g))
+		} else {
+			None
+		};
+		let mut text = int.join("_");
+		if let Some(f) = &frac {
+			text.push('.');
+			text.push_str(&f.join("_"));
+		}
+		if let Some((l, s, g)) = &exp {
+			text.push_str(l);
+			if let Some(s) = s {
+				text.push_str(s);
+			}
+			text.push_str(&g.join("_"));
+		}
+		let lit = json!({"int": int, "frac": frac, "exp": exp.as_ref().map(|(l, s, g)| json!({"l": l, "s": s, "g": g}))});
+		c.number("structured", &text, Some(lit));
+	}
+	// (c) rounding / range boundaries and glued junk
+	for s in [
+		"1.7976931348623157e308", "1.7976931348623158e308", "1.7976931348623159e308", "179769313486231580793728971405303415079934132710037826936173778980444968292764750946649017977587207096330286416692887910946555547851940402630657488671505820681908902000708383676273854845817711531764475730270069855571366959622842914819860834936475292719074168444365510704342711559699508093042880177904174497791.9999999999999999999999999999999999999999999999999999999999999999999999999999",
+		"4.9e-324", "5e-324", "2.4703282292062327e-324", "2.4703282292062328e-324", "2.2250738585072014e-308", "2.2250738585072011e-308",
+		"9007199254740993", "9007199254740992", "9007199254740995", "9007199254740993.0000000000000000000000000000000000001", "0.1", "0.3", "1e23", "8.41e21", "1e-400", "1e400",
+		"0e999999999", "0.0e-999999999", "1e99999999999999999999", "1e-99999999999999999999", "123456789012345678901234567890", "0.000000000000000000000000000000000000000000001",
+		"1else", "1.e5", "1.5.5", "1e5.x", "1.5e5e5", "1_000_000", "1_0.0_1e0_1", "1e+0_0", "0_0", "00", "0x1", "1ee5", "1e+-5", "1.+5", "1._5", "1_.5", "1._", "1e_5", "1e5_", "1é", "1.é", "1eé", "1e+é", "1e+",
+		"1in x", "1if", "1.0in x", "1e", "1E", "1e5e", "1.5E+", "9e", "9.a", "0.a", "0e", "0ea", "0.0ea", "0.0e+a", "0_", "0_a",
+	] {
+		c.number("boundary", s, None);
+	}
+}
+
+/// (kind, source text, span-erased rendering of the payload)
+const SUFFIXES: &[(&str, &str, &str)] = &[
+	("part", ". f", "\"f\""),
+	("part", "[ i ]", "i"),
+	("part", "[ 1 + 2 ]", "(Add 1 2)"),
+	("slice", "[ : 2 ]", "_ 2 _"),
+	("slice", "[ 1 : ]", "1 _ _"),
+	("slice", "[ : : 3 ]", "_ _ 3"),
+	("slice", "[ :: ]", "_ _ _"),
+	("slice", "[ 1 : 2 : 3 ]", "1 2 3"),
+	("call", "( )", "(args)"),
+	("call", "( 1 , x = 2 )", "(args 1 (x= 2))"),
+	("call", "( 1 ) tailstrict", "(args 1) tailstrict"),
+	("ext", "{ }", "(members)"),
+	("ext", "{ k : 1 }", "(members (field \"k\" Normal 1))"),
+];
+const SUFFIX_BASES: &[(&str, &str)] = &[("a", "a"), ("( a . b )", "(index a \"b\")"), ("( a )", "a")];
+
+/// `c06.suffix`: every chain of suffixes up to a length bound after every base operand
+fn suffixes(c: &mut Ctx, max_len: usize) {
+	for (btext, bsx) in SUFFIX_BASES {
+		let mut frontier: Vec<Vec<usize>> = vec![vec![]];
+		for _ in 0..=max_len {
+			let mut next = Vec::new();
+			for chain in &frontier {
+				let mut src = btext.to_string();
+				let mut items = Vec::new();
+				for i in chain {
+					src.push(' ');
+					src.push_str(SUFFIXES[*i].1);
+					items.push(json!([SUFFIXES[*i].0, SUFFIXES[*i].2]));
+				}
+				let (ir, _) = run_ir(&src);
+				let (peg, _) = run_peg(&src);
+				c.bump(&format!("suffix.len{}", chain.len()));
+				c.w.case(
+					json!({"op":"c06.suffix","base":bsx,"items":items,"size":src.len(),"_src":src}),
+					json!({"ir": ir, "peg": peg}),
+				);
+				if chain.len() < max_len {
+					for i in 0..SUFFIXES.len() {
+						let mut q = chain.clone();
+						q.push(i);
+						next.push(q);
+					}
+				}
+			}
+			frontier = next;
+		}
+	}
+}
+
+fn verbatims(c: &mut Ctx, rng: &mut Rng, max_len: usize, n_random: usize) {
+	for q in ['"', '\''] {
+		let other = if q == '"' { '\'' } else { '"' };
+		let alpha = [q, other, 'a', '\\', 'é'];
+		let mut frontier: Vec<String> = vec![format!("@{q}")];
+		for _ in 0..=max_len {
+			let mut next = Vec::new();
+			for s in &frontier {
+				c.verbatim("exhaustive", q, s, None);
+				if s.chars().count() < max_len + 2 {
+					for a in alpha {
+						let mut t = s.clone();
+						t.push(a);
+						next.push(t);
+					}
+				}
+			}
+			frontier = next;
+		}
+		let calpha = [q, q, other, 'a', '\\', '\n', ' ', 'é', '😀', '@', '\t'];
+		for _ in 0..n_random {
+			let n = rng.below(9);
+			let content: String = (0..n).map(|_| *rng.pick(&calpha)).collect();
+			let mut text = format!("@{q}");
+			for ch in content.chars() {
+				text.push(ch);
+				if ch == q {
+					text.push(q);
+				}
+			}
+			text.push(q);
+			c.verbatim("structured", q, &text, Some(&content));
+		}
+	}
+}
+
 const ALPHABET: [&str; 25] = [
 	"x", "1", "\"s\"", "(", ")", "[", "]", "{", "}", ":", ",", ".", "+", "-", "*", "~", "==", "in",
 	"if", "then", "else", "local", "=", ";", "for",
@@ -814,6 +1069,7 @@ fn trivia(c: &mut Ctx, rng: &mut Rng, per_program: usize) {
 				push_trivia(&mut s, *rng.pick(TRIVIA));
 			}
 			c.agree("trivia-random", &s, Some(&base), false);
+			c.strip(&s, &base_src, &base);
 		}
 	}
 }
@@ -1029,6 +1285,36 @@ fn replay(c: &mut Ctx, path: &std::path::Path) {
 			let want = op.get("want").and_then(Value::as_str).map(str::to_string);
 			c.pratt("replay", &toks, want.as_deref());
 		}
+		Some("c06.number") | Some("c06.verbatim") => {
+			let s: String = op["s"]
+				.as_array()
+				.map(|a| a.iter().filter_map(|t| t.as_u64().and_then(|u| char::from_u32(u as u32))).collect())
+				.unwrap_or_default();
+			if op["op"] == "c06.number" {
+				c.number("replay", &s, op.get("lit").cloned());
+			} else {
+				let q = op["q"].as_u64().and_then(|u| char::from_u32(u as u32)).unwrap_or('"');
+				let content: Option<String> = op.get("content").and_then(Value::as_array).map(|a| {
+					a.iter().filter_map(|t| t.as_u64().and_then(|u| char::from_u32(u as u32))).collect()
+				});
+				c.verbatim("replay", q, &s, content.as_deref());
+			}
+		}
+		Some("c06.suffix") => {
+			let src = op["_src"].as_str().unwrap_or("");
+			let (ir, _) = run_ir(src);
+			let (peg, _) = run_peg(src);
+			c.w.case(op.clone(), json!({"ir": ir, "peg": peg}));
+		}
+		Some("c06.strip") => {
+			let src = op["_src"].as_str().unwrap_or("");
+			let base_src: String = op["base"]
+				.as_array()
+				.map(|a| a.iter().filter_map(|l| l[1].as_str()).collect::<Vec<_>>().join(" "))
+				.unwrap_or_default();
+			let (base, _) = run_ir(&base_src);
+			c.strip(src, &base_src, &base);
+		}
 		Some("c06.unescape") => {
 			let s: String = op["s"]
 				.as_array()
@@ -1055,6 +1341,11 @@ pub fn run(opts: &Opts) {
 		operators(&mut c, &mut rng, if opts.thorough() { 40_000 } else { 4_000 });
 		literals(&mut c);
 		unescapes(&mut c, &mut rng, if opts.thorough() { 60_000 } else { 6_000 });
+		suffixes(&mut c, if opts.thorough() { 4 } else { 3 });
+		// own stream, so that the corpus of the older generators is unchanged for a given seed
+		let mut rng2 = Rng::new(opts.seed ^ 0x6c69_7465_7261_6c73);
+		numbers(&mut c, &mut rng2, if opts.thorough() { 6 } else { 5 }, if opts.thorough() { 30_000 } else { 3_000 });
+		verbatims(&mut c, &mut rng2, if opts.thorough() { 6 } else { 5 }, if opts.thorough() { 10_000 } else { 1_000 });
 		mutations(&mut c, &mut rng, if opts.thorough() { 600 } else { 60 });
 		trivia(&mut c, &mut rng, if opts.thorough() { 200 } else { 20 });
 		exhaustive(&mut c, full_len, max_len);
@@ -1064,7 +1355,7 @@ pub fn run(opts: &Opts) {
 	let all_reject = c.all_reject;
 	c.w.finish(
 		json!({"engine":"c06","cases":n,
-			"rule": format!("all token sequences over a {}-token alphabet to length {full_len}, viable prefixes (error at end of input in either evaluator parser) to length {max_len}; 19x19 operator pairs in both association positions, 4x19 unary placements, raw pairs/triples, random ASTs printed with minimal and redundant parentheses; {} programs x single-token delete/replace/insert; trivia insertion at every boundary; literal/escape/text-block/number/reserved-word/trailing-comma forms; unescape on all \\xHH, \\u edge classes and pairs", ALPHABET.len(), PROGRAMS.len()),
+			"rule": format!("all token sequences over a {}-token alphabet to length {full_len}, viable prefixes (error at end of input in either evaluator parser) to length {max_len}; 19x19 operator pairs in both association positions, 4x19 unary placements, raw pairs/triples, random ASTs printed with minimal and redundant parentheses; {} programs x single-token delete/replace/insert; trivia insertion at every boundary; literal/escape/text-block/number/reserved-word/trailing-comma forms; unescape on all \\xHH, \\u edge classes and pairs; number texts: every string over 0 1 9 _ . e E + - a starting with a digit to a length bound, random structured literals (digit groups, fraction, exponent, boundary exponents) re-rendered by the Lean Spec, rounding/range boundaries; verbatim strings: every body over q q' a \\\\ é to a length bound for both quotes, random contents rendered with doubled quotes; lexeme streams of the trivia corpus; every chain of up to 3 (thorough 4) suffixes out of 13 forms (field, index, 5 slice shapes, 3 call shapes, 2 object extensions) after 3 base operands", ALPHABET.len(), PROGRAMS.len()),
 			"sequences_rejected_by_all_three_not_emitted": all_reject,
 			"histogram": hist}),
 		&opts.out,
